@@ -6,6 +6,7 @@ import (
 	"errors"
 	"fmt"
 	"strings"
+	"verifharness/gen"
 
 	"github.com/tigerwill90/fox"
 
@@ -451,6 +452,37 @@ func runBytes(c *mc.Ctx, r *mc.Result) {
 	}
 }
 
+// runStructured: patterns too long for the string enumeration, generated segment by segment: up to four
+// segments over {static, parameter, catch-all, prefixed catch-all, prefixed parameter}, with and without a
+// trailing slash, alone and behind two hostname shapes; each accepted one is instantiated like in the grammar part
+// (one-byte values included, so that every wildcard also gets its shortest possible text).
+func runStructured(c *mc.Ctx, r *mc.Result) {
+	segs := []string{"a", "{}", "*{}", "a*{}", "a{}"}
+	depth := 4
+	prefixes := []string{"", "{h}.b", "a.{h}"}
+	r.Bounds["structured"] = fmt.Sprintf("all patterns of <=%d segments over %v (+ trailing slash variants) x hostname prefixes %q, each accepted one instantiated with every value combination from {a,b,ab} (catch-alls also a/b, hostname labels also 1, 10)", depth, segs, prefixes)
+	idx := 0
+	for _, pre := range prefixes {
+		for _, s := range gen.Patterns(segs, depth, true, pre) {
+			idx++
+			if !c.Mine(idx) {
+				continue
+			}
+			if c.ExpiredEvery(64) {
+				r.NotExhaustive = append(r.NotExhaustive, "structured: time guard")
+				return
+			}
+			n, cl, m := checkRoutable(s)
+			r.Evaluations += int64(n)
+			r.DistinctNontrivial++
+			r.Count("instantiations", int64(n))
+			if cl != "" {
+				r.Violate("structured", cl, m, Case{Pattern: []byte(s), Lim: limits{-1, -1}})
+			}
+		}
+	}
+}
+
 func replay(c *mc.Ctx, raw json.RawMessage) string {
 	var cs Case
 	if err := json.Unmarshal(raw, &cs); err != nil {
@@ -476,12 +508,12 @@ func init() {
 	mc.Register(&mc.Check{
 		ID:    "C10",
 		Level: "exploration",
-		Rule: "complete enumeration of all strings up to a length over the 8-letter pattern alphabet x 8 limit configurations, compared with a reference recogniser (tokeniser + rule list written from the README); accepted patterns are registered and deleted on an empty router and instantiated with every value combination; plus arbitrary bytes for crash-freedom; " +
+		Rule: "complete enumeration of all strings up to a length over the 8-letter pattern alphabet x 8 limit configurations, compared with a reference recogniser (tokeniser + rule list written from the README); accepted patterns are registered and deleted on an empty router and instantiated with every value combination; plus arbitrary bytes for crash-freedom; plus every pattern of up to four segments over a segment alphabet (several catch-alls and parameters per pattern, hostname prefixes) instantiated the same way; " +
 			"non-trivial = the string contains a wildcard opener; byte substitutions count as non-trivial",
 		Assumptions: []string{
 			"reference grammar from the README; abstained (gray): '_' in host labels, '-' directly before a label parameter",
 			"a stray '}' outside a wildcard is static text (the statement does not forbid it)",
 		},
-		Parts: []mc.Part{{Name: "grammar", Run: runGrammar, Replay: replay}, {Name: "bytes", Run: runBytes, Replay: replay}},
+		Parts: []mc.Part{{Name: "grammar", Run: runGrammar, Replay: replay}, {Name: "bytes", Run: runBytes, Replay: replay}, {Name: "structured", Run: runStructured, Replay: replay}},
 	})
 }
